@@ -640,8 +640,10 @@ class Performance(object):
         self.performedparts[index] = pp
 
     def __iter__(self) -> Iterator[PerformedPart]:
+        # a new, independent iterator per loop: a cursor stored on the
+        # performance makes nested or interleaved iterations interfere
         self.iter_idx = 0
-        return self
+        return iter(self.performedparts)
 
     def __next__(self) -> PerformedPart:
         if self.iter_idx == len(self.performedparts):
